@@ -337,7 +337,12 @@ def _fill_in_default_arguments(func: Callable, call: ast.Call) -> Tuple[ast.Call
             f" with a '[cpp_vfloat]' or similar?"
         )
 
-    sig = inspect.signature(func)
+    try:
+        sig = inspect.signature(func)
+    except ValueError:
+        # Some methods of built in types (`str.startswith`, `int.conjugate`) cannot be
+        # inspected: nothing is known about their parameters, the call stays as written.
+        return call, Any
     i_arg = 0
     arg_array = list(call.args)
     keywords = list(call.keywords)
